@@ -6,16 +6,19 @@ import vlib
 META = {
     "engine": "FileModel.tla,FileModelLineReader.tla,FileModelBig.tla",
     "technique": "TLC exhaustive enumeration of FileModel.tla histories (put/write/append/stream/copy/move/remove through "
-                 "temporaries, open/write/flush/close/read/readLine through a long-lived object) replayed on real File/"
+                 "temporaries, open/write/flush/close/read/readLine and size/exists/isFile/content/firstBytes/text/lines queries "
+                 "through a long-lived object, between its own writes, closes and reopens) replayed on real File/"
                  "TextFile/Directory under ASan+LSan with the results of every call and the final observation of every "
-                 "path (API and POSIX) compared; TLC-generated line shapes at the real 255-byte chunk size and BOM texts; "
+                 "path (API through fresh objects, through the long-lived object itself where the specification enables it, "
+                 "and POSIX) compared; TLC-generated line shapes at the real 255-byte chunk size and BOM texts; "
                  "the implementation-shaped chunked line reader checked against the property-level Lines in TLC; "
                  "recorded random executions (sizes to 200000, lines to 2000, BOM texts) validated by TLC; contents of "
                  "1..16 MiB validated against FileModelBig.tla (run-length contents, operators proved equal to the explicit ones "
                  "in small scope by TLC)",
     "design_ref": "DESIGN.md section 6, C17",
     "level_text": "TLC enumerates every history of write/append/reopen/read/copy/move calls up to the configured bound on "
-                  "FileModel.tla (one path with a long-lived handle, a second path and a directory target), checks the "
+                  "FileModel.tla (one path with a long-lived handle that is also queried itself in every order with its own "
+                  "writes/closes, a second path and a directory target), checks the "
                   "spec's own properties (independence of paths, copy/move exactness, Lines well-formedness, decoder o "
                   "encoder = UTF-8 for the three BOM encodings) and every transition is replayed on the real classes; "
                   "FileModelLineReader.tla transcribes readLine()/lines() with a parametric chunk size and TLC checks it "
@@ -27,12 +30,16 @@ META = {
                   "of up to a few dozen runs; lines()/readLine are not exercised at that size); the largest content checked is "
                   "reported in the evidence. The usage discipline of the documented API is assumed: a path is "
                   "read back through a fresh object or after close()/flush(), and other objects do not write a path while "
-                  "the long-lived object has it open (stdio buffering makes anything else unspecified). text() folds CR LF "
+                  "the long-lived object has it open (stdio buffering makes anything else unspecified); a File object keeps the "
+                  "file information of its first size()/isFile()/content()/text() until close(), so the long-lived object is "
+                  "asked those only while that information is still true or after close() (ghost hknown, guard InfoOK). text() folds CR LF "
                   "in UTF-16 files by design, generated UTF-16 texts contain no CR LF pair. Trusted: TLC, clang ASan/LSan, "
                   "POSIX read-back, the run-length coder of the harness.",
 }
 
 HARNESS = ["c17_replay.cpp"]
+# per-case time limit of the replayer: generous, the machine is shared (a hang is still found, just later)
+CASE_LIMIT = ("--case-timeout-ms", "90000")
 
 
 def run(ctx):
@@ -45,25 +52,35 @@ def run(ctx):
     # (2) histories
     cases = os.path.join(ctx.tmp, "c17.cases")
     r = ctx.model("MC_FileModel", "MC_FileModel_" + tier, emit_to=cases, timeout=ctx.pick(600, 3000), xmx="8g",
-                  ignore_cov=("MCPutShape", "MCPutEnc", "MCHLines"))
+                  ignore_cov=("MCPutShape", "MCPutEnc", "MCHLines", "MCHQuery", "MCHCloseClosed"))
     if r.coverage.get("MCHLines", (0, 0))[1] == 0:
         raise vlib.HarnessError("MC_FileModel_%s: action MCHLines never generated" % tier)
     ctx.exhaustive = True
     ctx.rule = ("one case per transition of the FileModel state graph (history of File/TextFile/Directory calls with the results "
                 "the calls must return + expected observation of all paths); non-trivial = history with >= 2 calls; "
                 "distinct = distinct case lines (hash)")
-    ctx.replay(rep, cases, label="R/FileModel", timeout=ctx.pick(900, 5400), env={"VERIF_TMP": ctx.tmp})
+    ctx.replay(rep, cases, label="R/FileModel", args=CASE_LIMIT, timeout=ctx.pick(900, 5400), env={"VERIF_TMP": ctx.tmp})
+    os.unlink(cases)
+    # (2b) handle histories: the long-lived object is asked itself (size / exists / isFile / content / firstBytes / text / lines /
+    # readLine loop) between its own writes, closes and reopens and writes to its path by temporaries, in every order
+    r = ctx.model("MC_FileModel", "MC_FileModel_handle_" + tier, emit_to=cases, timeout=ctx.pick(600, 3000), xmx="8g",
+                  ignore_cov=("MCStream", "MCPutShape", "MCPutEnc", "MCHLines"))
+    for act in ("MCHQuery", "MCHCloseClosed", "MCHLines"):
+        if r.coverage.get(act, (0, 0))[1] == 0:
+            raise vlib.HarnessError("MC_FileModel_handle_%s: action %s never generated" % (tier, act))
+    ctx.replay(rep, cases, label="R/FileModel-handle", args=CASE_LIMIT, timeout=ctx.pick(900, 5400), env={"VERIF_TMP": ctx.tmp})
     os.unlink(cases)
     # (3) line shapes at the real chunk size and BOM-encoded texts
     r = ctx.model("MC_FileModel", "MC_FileModel_text_" + tier, emit_to=cases, timeout=ctx.pick(600, 3000), xmx="8g",
                   ignore_cov=("MCPutBin", "MCPutText", "MCAppend", "MCStream", "MCRemove", "MCCopy", "MCMove", "MCHWrite",
-                              "MCHPut", "MCHFlush", "MCHClose", "MCHRead", "MCHLines"))
-    ctx.replay(rep, cases, label="R/FileModel-text", timeout=ctx.pick(900, 5400), env={"VERIF_TMP": ctx.tmp})
+                              "MCHPut", "MCHFlush", "MCHClose", "MCHRead", "MCHLines", "MCHQuery", "MCHCloseClosed"))
+    ctx.replay(rep, cases, label="R/FileModel-text", args=CASE_LIMIT, timeout=ctx.pick(900, 5400), env={"VERIF_TMP": ctx.tmp})
     os.unlink(cases)
     # (3b) contents around the 65536-byte copy block through put / copy / move / handle writes
     ctx.model("MC_FileModel", "MC_FileModel_big_" + tier, emit_to=cases, timeout=ctx.pick(600, 3000), xmx="8g",
-              ignore_cov=("MCPutText", "MCAppend", "MCStream", "MCHRead", "MCHLines", "MCPutShape", "MCPutEnc"))
-    ctx.replay(rep, cases, label="R/FileModel-big", timeout=ctx.pick(900, 5400), env={"VERIF_TMP": ctx.tmp})
+              ignore_cov=("MCPutText", "MCAppend", "MCStream", "MCHRead", "MCHLines", "MCPutShape", "MCPutEnc", "MCHQuery",
+                          "MCHCloseClosed"))
+    ctx.replay(rep, cases, label="R/FileModel-big", args=CASE_LIMIT, timeout=ctx.pick(900, 5400), env={"VERIF_TMP": ctx.tmp})
     os.unlink(cases)
     # (4) V
     files = ctx.record(rec, ctx.pick(12, 64), ctx.pick(2500, 12000), "V/FileModel", env={"VERIF_TMP": ctx.tmp})
@@ -75,10 +92,13 @@ def run(ctx):
     ctx.validate_traces("Trace_FileModelBig", "Trace_FileModelBig", big, label="V/FileModelBig", timeout=ctx.pick(600, 3000))
     ctx.extra["largest_content_bytes_validated"] = max(largest, _largest(big, ("z", "r")))
     ctx.assumptions += [
-        "exhaustive within the constants of spec/MC_FileModel_%s.cfg, MC_FileModel_text_%s.cfg, MC_FileModel_big_%s.cfg, "
-        "MC_FileModelLineReader_%s.cfg; beyond them only the recorded random executions apply" % (tier, tier, tier, tier),
+        "exhaustive within the constants of spec/MC_FileModel_%s.cfg, MC_FileModel_handle_%s.cfg, MC_FileModel_text_%s.cfg, "
+        "MC_FileModel_big_%s.cfg, MC_FileModelLineReader_%s.cfg; beyond them only the recorded random executions apply"
+        % (tier, tier, tier, tier, tier),
         "usage discipline of the documented API: read back through a fresh object or after close()/flush(); no writes to a "
-        "path by other objects while the long-lived object has it open",
+        "path by other objects while the long-lived object has it open; the long-lived object is asked for size()/isFile()/"
+        "content()/text() only while the file information it remembers from an earlier query (kept until close()) still "
+        "describes the file (FileModel!InfoOK) - after close() every query must reflect the bytes of the path",
         "contents of 1..16 MiB are sampled (recorder mode 1) as sequences of long runs and compared in run-length form",
         "memory errors/leaks are observed by ASan/LSan on the replayed and recorded executions, not decided by the model",
     ]
